@@ -384,6 +384,11 @@ func TestEngineIndexer(t *testing.T) {
 				}
 				if uint64(rc.GasUsed) != wantGas {
 					diffs = append(diffs, fmt.Sprintf("gasUsed %d want %d", rc.GasUsed, wantGas))
+					if !o.hasRcpt {
+						// C05: a transaction that passed admission and failed outside EVM execution (consensus-level error, block
+						// gas exhausted) cost its sender the whole gas limit: that is the gas used its receipt shows
+						p.Oracle("C05-receipt-gas-of-tx-failed-outside-evm", "block %d pos %d (class %s): the sender paid for the gas limit %d, the receipt served by eth_getTransactionReceipt shows gas used %d", h, e.pos, obsClass(o), wantGas, rc.GasUsed)
+					}
 				}
 				if uint64(rc.TransactionIndex) != uint64(ethIdx) {
 					diffs = append(diffs, fmt.Sprintf("transactionIndex %d want %d", rc.TransactionIndex, ethIdx))
